@@ -10,7 +10,7 @@ READY = True
 TRUSTED_BASE = [
     "Coq 8.16.1 kernel (coqc, full .vo build); vm_compute in the two refutation witnesses, the non-vacuity Example and the correspondence evaluation",
     "no axioms: Print Assumptions reports 'Closed under the global context' for every theorem of Properties/C01.v",
-    "hand-written model coq/C01/Model.v of mpcalctx.go Run/commit/abort, archetypeinterface.go Read/Write, archetyperesource.go and 13 resource kinds, "
+    "hand-written model coq/C01/Model.v of mpcalctx.go Run/commit/abort, archetypeinterface.go Read/Write, archetyperesource.go and 19 leaf kinds + IncMap/HashMap + nestedArchetype, "
     "tied by differential execution on every run (harness/cmd/c01 drives real MPCalContexts; the model is evaluated by vm_compute on the same cases)",
     "ghost stores of the model (Go channel behind a channel resource, badger, file system, TCP stream) behave as FIFO queue / key-value store / file / in-order stream",
     "the implementation-side oracle in props/c01.py (atomic reference semantics in Python) is test infrastructure",
@@ -21,20 +21,21 @@ ASSUMPTIONS = [
     "section bodies are straight-line code whose later operations may depend on earlier reads (finite interaction trees); environment steps "
     "(producer pushes, the other lock holder, consumer readiness) happen between attempts",
     "PreCommit errors are ErrCriticalSectionAborted (the only error the shipped resources yield from PreCommit)",
-    "not modelled in Coq: CRDT (single node), unreplicated 2PC, failure detector, PlaceHolder are run against the real code with the implementation-side oracle only; nested archetypes are not covered; tcpMailboxesLocal/relaxedMailboxesLocal "
+    "projections: the CRDT resource is modelled as one node without peers (merges and broadcasts are C13), the 2PC variable without replicas (C11), the failure detector as a read-only flag, "
+    "nestedArchetype as a forwarder over a lawful nested system (in the harness: a real nested MPCalContext serving a variable over the request/ack protocol); tcpMailboxesLocal/relaxedMailboxesLocal "
     "are the InputChan discipline (readBacklog/readsInProgress) and are exercised as the receiving side only",
     "vector clocks are transparent to values and not modelled",
 ]
-RULE = ("cases = one MPCalContext with 1-5 resources drawn from 21 kinds (local, indexed local, InputChan, CustomInChan, OutputChan, SingleOutputChan, Dummy, "
-        "FileSystem, IncMap/HashMap of locals, Persistent, IncMap of Persistent, PersistentLog, localShared, TCP and relaxed mailboxes over 127.0.0.1 on the sending and on the receiving side; oracle-only: single-node CRDT, unreplicated 2PC, failure detector, PlaceHolder), "
+RULE = ("cases = one MPCalContext with 1-5 resources drawn from 22 kinds (local, indexed local, InputChan, CustomInChan, OutputChan, SingleOutputChan, Dummy, "
+        "FileSystem, IncMap/HashMap of locals, Persistent, IncMap of Persistent, PersistentLog, localShared, TCP and relaxed mailboxes over 127.0.0.1 on the sending and on the receiving side; single-node CRDT, unreplicated 2PC, nestedArchetype over a real nested context, failure detector, PlaceHolder), "
         "1-6 attempts of 1-8 scripted operations (reads/writes with index paths, write-what-was-read, await, assert, goto), one injected failure per failing attempt "
-        "at a random position (false await, refusal at call j of an operation's Index/Read/Write chain, PreCommit failure of a random subset of resources, PreCommit refusal of chosen elements among 2-4 touched elements of one IncMap/HashMap, resource-inherent: "
+        "at a random position (false await, refusal at call j of an operation's Index/Read/Write chain, PreCommit failure of a random subset of resources, PreCommit refusal of chosen elements among 2-4 touched elements of one IncMap/HashMap, network failure of a TCP mailbox (the peer resets the connection before / between / after the writes of a section through a forwarder, or is unreachable), resource-inherent: "
         "empty channel, lock held elsewhere, full consumer), usually followed by a fault-free retry, plus a final observing section; all from one PRNG (VERIF_SEED). "
         "Non-trivial = at least 2 resource kinds, a write before the failure and at least one failing attempt; distinct by canonical case text.")
 
 PC0 = "A.l"
 # kinds run against the real code with the implementation-side oracle only (no Coq model of them here)
-NOMODEL = ("crdt", "twopc", "fd", "placeholder")
+NOMODEL = ()
 
 # ------------------------------------------------------------------------------------------ values
 
@@ -150,7 +151,7 @@ def init_obj(d):
         return {"q": []}
     if k == "crdt":
         return {"v": 0}
-    if k == "twopc":
+    if k in ("twopc", "nested"):
         return {"v": d["init"]}
     if k in ("fd", "placeholder"):
         return {}
@@ -261,7 +262,7 @@ def obj_step(kind, o, op, path, val):
             raise Crash()
         o["v"] += val
         return None
-    if kind == "twopc":          # an unreplicated 2PC variable is a variable
+    if kind in ("twopc", "nested"):   # an unreplicated 2PC variable / a variable served by a nested archetype
         if path:
             raise Crash()
         if op == "r":
@@ -278,10 +279,10 @@ def obj_step(kind, o, op, path, val):
 
 
 def obj_snap(kind, o, keys):
-    if kind in ("local", "dummy", "shared", "crdt", "twopc"):
+    if kind in ("local", "dummy", "shared", "crdt", "twopc", "nested"):
         return o["v"]
     if kind == "fd":
-        return True
+        return T(*[True for _ in keys])
     if kind in ("inchan", "custominchan", "placeholder"):
         return None
     if kind in ("tcp_local", "relaxed_local"):
@@ -326,6 +327,8 @@ class Ref:
         self.kinds = {d["name"]: d["kind"] for d in case["res"]}
         self.state = {d["name"]: init_obj(d) for d in case["res"]}
         self.pc = PC0
+        # TCP mailbox senders: the connection survives aborts; a reset by the peer kills it until the next dial
+        self.net = {d["name"]: {"conn": "none", "down": False} for d in case["res"] if d["kind"] == "tcp"}
 
     def snap(self, state=None, pc=None):
         state = self.state if state is None else state
@@ -341,6 +344,11 @@ class Ref:
             o["q"].append(ev[2])
         elif ev[0] == "pushb":
             o["q"].extend(ev[2])
+        elif ev[0] == "net":
+            n = self.net[ev[1]]
+            n["down"] = not ev[2]
+            if n["down"] and n["conn"] == "live":
+                n["conn"] = "dead"
         elif ev[0] == "other":
             if "other" in o:
                 o["other"] = ev[2]
@@ -357,9 +365,14 @@ class Ref:
         outcome = None
         touched = set()
         touched_elems = set()
+        netfail, net_written = None, set()
         fault = at.get("fault")
         for k, op in enumerate(at["ops"]):
             try:
+                if op[0] == "cut":               # the peer resets the connections of this mailbox now
+                    if self.net[op[1]]["conn"] == "live":
+                        self.net[op[1]]["conn"] = "dead"
+                    continue
                 if op[0] in ("r", "w", "wl"):
                     touched.add(op[1])          # the handle is marked dirty before anything else happens
                 if fault and fault["op"] == k:
@@ -383,6 +396,12 @@ class Ref:
                         last = v; tr.append(v)
                     else:
                         v = last if op[0] == "wl" else op[3]
+                        if kind == "tcp" and len(path) == 1:
+                            n = self.net[name]
+                            if n["conn"] == "dead" or (n["conn"] == "none" and n["down"]):
+                                n["conn"] = "none"; netfail = name
+                                raise Block()
+                            n["conn"] = "live"; net_written.add(name)
                         obj_step(kind, st[name], "w", path, v)
                         tr.append(None); wrote_before = True
                         if kind in ("singleout", "relaxed"):
@@ -392,13 +411,17 @@ class Ref:
             except Crash:
                 outcome = 2; break
         if outcome is None:
+            for name in sorted(net_written):
+                if self.net[name]["conn"] == "dead":      # reset after the last write: the pre-commit handshake fails
+                    self.net[name]["conn"] = "none"; netfail = name; outcome = 1
+        if outcome is None:
             # only resources touched by the section take part in the commit protocol
             refused_elems = set((e[0], json.dumps(e[1])) for e in (at.get("epcfail") or []))
             outcome = 1 if (set(at.get("pcfail") or []) & touched) or (refused_elems & touched_elems) else 0
         # the two kinds that are non-transactional by design: SingleOutputChan.Abort always panics,
         # relaxedMailboxesRemote.Abort panics after a send; what was sent stays sent
         panics = [self.kinds[n] for n in sorted(touched) if self.kinds[n] == "singleout"] + [k for k in sent_nontx if k == "relaxed"]
-        info = {"wrote_before_failure": wrote_before and outcome == 1, "sent_nontx": panics if outcome == 1 else []}
+        info = {"wrote_before_failure": wrote_before and outcome == 1, "sent_nontx": panics if outcome == 1 else [], "net": netfail}
         if outcome == 0:
             self.state, self.pc = st, pc
         if outcome == 1 and panics:
@@ -448,12 +471,12 @@ def paths_of(v):
 KIND_WEIGHTS = [("local", 5), ("inchan", 3), ("outchan", 3), ("filesystem", 2), ("incmap_local", 3), ("hashmap_local", 1),
                 ("persist", 2), ("incmap_persist", 1), ("plog", 2), ("shared", 2), ("dummy", 1), ("custominchan", 1),
                 ("singleout", 0.6), ("tcp", 0.5), ("relaxed", 0.4), ("tcp_local", 0.5), ("relaxed_local", 0.3),
-                ("crdt", 0.7), ("twopc", 0.7), ("fd", 0.3), ("placeholder", 0.1)]
+                ("crdt", 1.0), ("twopc", 0.8), ("fd", 0.3), ("placeholder", 0.1), ("nested", 0.8)]
 
 
 def gen_res(rng, name, kind):
     d = {"name": name, "kind": kind}
-    if kind in ("local", "persist", "shared", "incmap_local", "incmap_persist", "twopc"):
+    if kind in ("local", "persist", "shared", "incmap_local", "incmap_persist", "twopc", "nested"):
         d["init"] = gen_struct(rng)
     elif kind == "dummy":
         d["init"] = rng.choice(VALS)
@@ -521,7 +544,7 @@ def gen_op(rng, ref, d, malformed):
         return ["w", name, [0], rng.choice([21, 22, "net"])]
     if kind == "crdt":
         return ["r", name, []] if rng.random() < 0.4 else ["w", name, [], rng.randint(1, 3)]
-    if kind == "twopc":
+    if kind in ("twopc", "nested"):
         r = rng.random()
         return ["r", name, []] if r < 0.4 else ["w", name, [], gen_val(rng)] if r < 0.85 else ["wl", name, []]
     if kind == "fd":
@@ -552,7 +575,7 @@ def gen_case(rng, malformed=False):
             snap.append([d["name"], [kv[0] for kv in d["table"]]])
         elif d["kind"] == "filesystem":
             snap.append([d["name"], ["f1", "f2", "f3"]])
-        elif d["kind"] in ("tcp", "relaxed", "tcp_local", "relaxed_local"):
+        elif d["kind"] in ("tcp", "relaxed", "tcp_local", "relaxed_local", "fd"):
             snap.append([d["name"], [0]])
         else:
             snap.append([d["name"], []])
@@ -610,6 +633,40 @@ def gen_case(rng, malformed=False):
         ref.attempt(at2)
         case["attempts"].append(at2)
         natt += 2
+    # network pattern: the peer of a TCP mailbox resets the connection before, between and after the writes of a
+    # section, or is unreachable for a while; nothing of a failed attempt may be delivered
+    nets = [d for d in res if d["kind"] == "tcp"]
+    if nets and not malformed and not any(d["kind"] in ("singleout", "relaxed") for d in res) and rng.random() < 0.8:
+        d = nets[0]
+        others = [x for x in res if x["kind"] in ("local", "outchan", "persist", "twopc", "nested")]
+        def sec(kind_):
+            w = lambda: ["w", d["name"], [0], rng.choice([21, 22, 23, "net"])]
+            ops = [w() for _ in range(rng.randint(1, 3))]
+            if others:
+                o = rng.choice(others)
+                ops.insert(rng.randint(0, len(ops)), ["w", o["name"], [], rng.choice([1, 2, "v"])])
+            env = []
+            if kind_ == "cut-before":
+                ops.insert(0, ["cut", d["name"]])
+            elif kind_ == "cut-between":
+                ops.insert(rng.randint(1, len(ops)), ["cut", d["name"]])
+            elif kind_ == "cut-after":
+                ops.append(["cut", d["name"]])
+            elif kind_ == "down":
+                env = [["net", d["name"], False]]
+            elif kind_ == "up":
+                env = [["net", d["name"], True]]
+            return {"env": env, "ops": ops, "fault": None, "pcfail": []}
+        plan = ["ok"] + rng.sample(["cut-before", "cut-between", "cut-after", "ok", "down"], rng.randint(2, 5))
+        if "down" in plan:
+            plan.insert(plan.index("down") + 1, "up")
+        for kind_ in plan:
+            at = sec(kind_)
+            for ev in at["env"]:
+                ref.env(ev)
+            ref.attempt(dict(at, env=[]))
+            case["attempts"].append(at)
+        natt += len(plan)
     while len(case["attempts"]) < natt:
         at = {"env": [], "ops": [], "fault": None, "pcfail": []}
         # environment
@@ -726,7 +783,7 @@ def gen_case(rng, malformed=False):
         for d in res:
             k = d["kind"]
             o = ref.state[d["name"]]
-            if k in ("local", "persist", "dummy", "crdt", "twopc"):
+            if k in ("local", "persist", "dummy", "crdt", "twopc", "nested"):
                 ops.append(["r", d["name"], []])
             elif k == "shared" and not o["other"]:
                 ops.append(["r", d["name"], []])
@@ -782,12 +839,24 @@ def coq_node(d):
         return "mk_incmap (fun _ => LTcp false [] [])"
     if k in ("tcp_local", "relaxed_local"):
         return "mk_incmap (fun _ => LIn [] [] [])"
+    if k == "crdt":
+        return "NLeaf (LCrdt 0%Z 0%Z false)"
+    if k == "twopc":
+        return "NLeaf (LTwoPC %s %s TNot)" % (v, v)
+    if k == "nested":
+        return "NNested (LLocal %s %s)" % (v, v)
+    if k == "placeholder":
+        return "NLeaf LPlace"
+    if k == "fd":
+        return "mk_incmap (fun _ => LFD (Some true))"
     raise ValueError(k)
 
 
-def coq_attempt(at):
+def coq_attempt(at, got=None, net=None):
     env = []
     for ev in at.get("env", []):
+        if ev[0] == "net":
+            continue
         if ev[0] == "push":
             env.append("EPush %s %s" % (vlib.coq_str(ev[1]), coq_val(canon(ev[2]))))
         elif ev[0] == "pushb":
@@ -810,11 +879,21 @@ def coq_attempt(at):
             ops.append("SAssert %s" % vlib.coq_bool(op[1]))
     fl = []
     f = at.get("fault")
+    pcf = list(at.get("pcfail", []))
     if f:
         nacts = sum(1 for op in at["ops"][:f["op"]] if is_act(op))
         fl = ["None"] * nacts + ["Some %s" % vlib.coq_nat(f["call"])]
+    elif net and got is not None and got.get("out") == 1:
+        # a network failure of a TCP mailbox: where it surfaced (a WriteValue, or the pre-commit handshake) is
+        # observed on the implementation and handed to the model
+        acts = [op for op in at["ops"] if is_act(op)]
+        k = len(got.get("tr") or [])
+        if k < len(acts):
+            fl = ["None"] * k + ["Some 1%nat"]
+        else:
+            pcf.append(net)
     return "mkAttempt %s %s %s %s %s" % (vlib.coq_list(env), vlib.coq_list(ops), vlib.coq_list(fl),
-                                         vlib.coq_list([vlib.coq_str(n) for n in at.get("pcfail", [])]),
+                                         vlib.coq_list([vlib.coq_str(n) for n in pcf]),
                                          vlib.coq_list(["(%s, %s)" % (vlib.coq_str(e[0]), coq_val(canon(e[1]))) for e in at.get("epcfail") or []]))
 
 
@@ -830,7 +909,8 @@ def to_coq(case, results):
             snap = [x if (n != ".pc" and case_kind(case, n) in ("singleout", "relaxed")) else None for (n, _), x in zip(case["snap"], snap)]
         vals = [coq_val(canon(T(*(a.get("tr") or []))))] + [coq_val(canon(x)) for x in snap]
         obs.append("(%s, %s)" % (vlib.coq_Z(a["out"]), vlib.coq_list(vals)))
-    return "(%s,\n  %s,\n  %s,\n  %s)" % (vlib.coq_list(rs), vlib.coq_list([coq_attempt(a) for a in case["attempts"]]).replace("; mkAttempt", ";\n   mkAttempt"),
+    return "(%s,\n  %s,\n  %s,\n  %s)" % (vlib.coq_list(rs), vlib.coq_list([coq_attempt(a, results[i] if i < len(results) else None, (case.get("_net") or {}).get(i))
+                                                        for i, a in enumerate(case["attempts"])]).replace("; mkAttempt", ";\n   mkAttempt"),
                                         vlib.coq_list(q), vlib.coq_list(obs))
 
 
@@ -862,7 +942,8 @@ def oracle(case, results):
         ks = kinds_sig(case, at)
         gsnap = canon(T(*(got.get("snap") or [])))["t"]
         gtr = canon(T(*(got.get("tr") or [])))["t"]
-        how = "fault" if at.get("fault") else "pcfail" if at.get("pcfail") else "elem-pcfail" if at.get("epcfail") else "await" if ["await", False] in at["ops"] else "inherent"
+        how = "fault" if at.get("fault") else "pcfail" if at.get("pcfail") else "elem-pcfail" if at.get("epcfail") else "await" if ["await", False] in at["ops"] \
+            else "net" if info.get("net") else "inherent"
         if exp_out == 3:
             stats["abort_panic"] += 1
             kind = sorted(set(info["sent_nontx"]))[0]
@@ -945,7 +1026,8 @@ def run(ctx):
         for at in c["attempts"]:
             how = "fault-call%d" % at["fault"]["call"] if at.get("fault") else "pcfail" if at.get("pcfail") else "elem-pcfail-%dof%d" % (
                 len(at["epcfail"]), len(set(json.dumps(op[2][0]) for op in at["ops"] if op[0] in ("r", "w", "wl") and op[2] and op[1] == at["epcfail"][0][0]))) if at.get("epcfail") \
-                else "await-false" if ["await", False] in at["ops"] else "none"
+                else "await-false" if ["await", False] in at["ops"] else "net-cut" if any(op[0] == "cut" for op in at["ops"]) \
+                else "net-down" if any(ev[0] == "net" and not ev[2] for ev in at.get("env", [])) else "none"
             faultpos[how] = faultpos.get(how, 0) + 1
         if r.get("err"):
             ctx.failures.append({"signature": "harness-error:" + r["err"][:40], "what": "harness reported " + r["err"],
@@ -956,8 +1038,11 @@ def run(ctx):
         for k in stats:
             outcomes[k] += stats[k]
         ref = Ref(c); routs = []
-        for at in c["attempts"]:
+        c["_net"] = {}
+        for ai, at in enumerate(c["attempts"]):
             o, _, _, info = ref.attempt(at)
+            if info.get("net"):
+                c["_net"][ai] = info["net"]
             routs.append((o, info["wrote_before_failure"] or bool(info["sent_nontx"])))
             if o in (2, 3):
                 break
@@ -1006,11 +1091,12 @@ MANIFEST = {
     "category": "proof",
     "technique": "Coq proof (transactional-resource laws per resource kind, family-with-dirty-set combinator preserves them, refinement of every section to an atomic step on abstract objects) "
                  "+ differential correspondence model vs real MPCalContexts with fault-injecting wrapper resources",
-    "text": ("Theorems in coq/Properties/C01.v, closed under the global context: trl_leaf / trl_incmap / trl_family (the laws hold for locals incl. indexed access, InputChan, CustomInChan, "
-             "OutputChan, Dummy, file, Persistent, PersistentLog, localShared, TCP mailbox sender+handler, and IncMap/HashMap over them; any family of lawful resources with a dirty set is lawful); "
+    "text": ("Theorems in coq/Properties/C01.v, closed under the global context: trl_leaf / trl_incmap / trl_nested / trl_family (the laws hold for locals incl. indexed access, InputChan, CustomInChan, "
+             "OutputChan, Dummy, file, Persistent, PersistentLog, localShared, TCP mailbox sender+handler, the CRDT resource (one node), the unreplicated 2PC variable, the failure detector, "
+             "PlaceHolder, IncMap/HashMap over them, nestedArchetype over any lawful nested system; any family of lawful resources with a dirty set is lawful); "
              "section_atomic_any_family and section_atomic (any body as a finite interaction tree, any refusal position, any failing PreCommit set: Committed => published view = atomic execution "
              "of the body, Aborted/Crashed => published view unchanged, dirty set empty); sections_atomic (any list of sections); abort_only_if_blocked; retry_starts_from_last_commit; "
              "transactional_kinds_never_panic; full_statement refuted for SingleOutputChan and relaxedMailboxesRemote (known finding: send inside WriteValue, Abort panics) and proved for all other kinds."),
     "level_note": ("Trusted: Coq kernel; the hand-written model (tie = differential execution of real contexts on generated sections with injected failures: 220 quick / 4000 thorough cases); "
-                   "ghost stores for channel/badger/file system/TCP. CRDT, 2PC, nested archetypes, failure detector are covered by C13/C11 models, not here."),
+                   "ghost stores for channel/badger/file system/TCP. CRDT and 2PC are modelled as single-node projections (multi-node behaviour is C13/C11)."),
 }
